@@ -30,6 +30,9 @@ from harness import fakes, vloop
 from harness.qos import CTL, GWY, Run, make_cmd, reply_frame, tu, _Stuck, _lib_frame  # noqa: F401
 
 
+OTHER_GWY = "18:222222"
+
+
 class GwTransport(fakes.FakeTransport):
     """FakeTransport with the close() discipline of the real transports (_ReadTransport._close: once only)."""
 
@@ -89,6 +92,7 @@ async def _run(sc: dict, holder: dict | None = None) -> dict:
     by_frame = {str(cmd): i for i, cmd in R.cmds.items()}
     spec_of = {c["id"]: c for c in sc["callers"]}
     R.probe_cmd = make_cmd("RQ", 15)
+    probe2_cmd = make_cmd("IMP", 14)      # a second probe, impersonating: its notice names the gateway in its header
 
     def deliver(frame: str, delay: float, tr: GwTransport) -> None:
         def _d() -> None:
@@ -103,13 +107,18 @@ async def _run(sc: dict, holder: dict | None = None) -> dict:
             code = frame[41:45] if len(frame) > 45 else ""
             R.rec(e="Write", i=0, k="alert" if " 7FFF " in frame else "unknown", s=code, n=t.k)
             if " 7FFF " in frame:
-                deliver(fakes.echo_of(frame), 0.01, t)
+                deliver(fakes.echo_of(frame, t.gwy_id), 0.01, t)
             elif frame == str(R.probe_cmd):
-                deliver(fakes.echo_of(frame), 0.01, t)
-                deliver(f"RP --- {CTL} {GWY} --:------ 30C9 003 0F07D0", 0.03, t)
+                deliver(fakes.echo_of(frame, t.gwy_id), 0.01, t)
+                deliver(f"RP --- {CTL} {t.gwy_id} --:------ 30C9 003 0F07D0", 0.03, t)
+            elif frame == str(probe2_cmd):
+                deliver(fakes.echo_of(frame, t.gwy_id), 0.01, t)
             return
         R.ntx[i] += 1
         n = R.ntx[i]
+        if t.gwy_id != GWY:      # what answers this transmission names the dongle it went through
+            R.echo_txt[i] = fakes.echo_of(frame, t.gwy_id)
+            R.rply_txt[i] = {x.replace(GWY, t.gwy_id) for x in R.rply_txt[i]}
         R.rec(e="Write", i=i, n=n, p=t.k, a=1 if t.closed else 0)
         txs = spec_of[i].get("tx") or [{}]
         tx = txs[min(n, len(txs)) - 1]
@@ -118,13 +127,17 @@ async def _run(sc: dict, holder: dict | None = None) -> dict:
                 deliver(R.echo_txt[i], tx[key], t)
         rf = reply_frame(spec_of[i]["kind"], spec_of[i]["zone"], null_log=bool(tx.get("null_log")))
         if rf:
+            rf = rf.replace(GWY, t.gwy_id)
             for key in ("reply", "reply2"):
                 if tx.get(key) is not None:
                     deliver(rf, tx[key], t)
 
     def new_transport(protocol) -> GwTransport:
         state["ntp"] += 1
-        t = GwTransport(protocol, loop, gwy_id=GWY, on_write=on_write, k=state["ntp"], R=R)
+        # "ids": "alternate" - every other connection is to another dongle (the application swapped it, or the port name now
+        # leads to another one): its echoes carry that id and the controller answers to it
+        gid = OTHER_GWY if sc.get("ids") == "alternate" and state["ntp"] % 2 == 0 else GWY
+        t = GwTransport(protocol, loop, gwy_id=gid, on_write=on_write, k=state["ntp"], R=R)
         real_write = t.write_frame
 
         async def write_frame(frame, disable_tx_limits=False):
@@ -377,10 +390,15 @@ async def _run(sc: dict, holder: dict | None = None) -> dict:
         try:
             pkt = await asyncio.wait_for(gwy.async_send_cmd(R.probe_cmd, max_retries=3, timeout=20, wait_for_reply=True), 60)
             txt = str(pkt)
-            good = txt == fakes.echo_of(str(R.probe_cmd)) or (txt.startswith("RP") and " 30C9 003 0F" in txt)
+            good = txt == fakes.echo_of(str(R.probe_cmd), cur["tr"].gwy_id) or (txt.startswith("RP") and " 30C9 003 0F" in txt)
             R.rec(e="Probe", k="ok" if good else "wrongpkt")
         except BaseException as err:  # noqa: BLE001
             R.rec(e="Probe", k="fail", s=type(err).__name__)
+        try:    # ... and so must a fresh impersonating command (mandatory notice first, then the command itself)
+            pkt = await asyncio.wait_for(gwy.async_send_cmd(probe2_cmd, max_retries=3, timeout=20, wait_for_reply=False), 60)
+            R.rec(e="Probe", k="ok" if str(pkt) == fakes.echo_of(str(probe2_cmd), cur["tr"].gwy_id) else "wrongpkt", s="imp")
+        except BaseException as err:  # noqa: BLE001
+            R.rec(e="Probe", k="fail", s=type(err).__name__ + ":imp")
     await asyncio.sleep(30.0)
     await vloop.drain()
     proj("probed")
